@@ -727,7 +727,8 @@ Section Inv.
         destruct (ctx_reg _ _ _ _ _ HI Hsb Eby) as [Hinp [Hrp Hpp]].
         assert (Hb : binder_of body n = Some (BClass None cbody)).
         { eapply wf_uniq; try eassumption. cbn. rewrite N.eqb_refl. reflexivity. }
-        rewrite Hpp. rewrite <- app_assoc.
+        pose proof (proj2 (by_id_some _ _ _ Eby)) as Hidp.
+        rewrite Hpp, Hidp. rewrite <- app_assoc.
         apply fold_inv.
         + intros s' st' Hs' HI'. rewrite Forall_forall in IHs.
           apply (IHs s' Hs' st' m (qual ++ [n]) cbody mm); try assumption.
@@ -745,11 +746,13 @@ Section Inv.
         destruct (ctx_reg _ _ _ _ _ HI Hsb Eby) as [Hinp [Hrp Hpp]].
         assert (Hb : binder_of body n = Some BDef).
         { eapply wf_uniq; try eassumption. cbn. rewrite N.eqb_refl. reflexivity. }
+        pose proof (proj2 (by_id_some _ _ _ Eby)) as Hidp.
         apply Inv2_register; [exact HI|].
         repeat split; try reflexivity.
-        exists m, (qual ++ [n]). split.
-        + eapply reg_fun; try eassumption; try reflexivity. cbn. rewrite Hpp, app_assoc. reflexivity.
-        + intros k q Hk. discriminate.
+        * cbn. rewrite Hpp, Hidp. reflexivity.
+        * exists m, (qual ++ [n]). split.
+          -- eapply reg_fun; try eassumption; try reflexivity. cbn. rewrite Hidp, app_assoc. reflexivity.
+          -- intros k q Hk. discriminate.
       - (* alias *) discriminate.
     Qed.
   End ExecInv.
